@@ -24,6 +24,16 @@ def spellings():
                     s[i] = s[i].upper()
             out.append(("".join(s), canon))
     out += [("http", "http"), ("HTTPS", "https"), ("xyz", "xyz"), ("ksi+udp", "ksi+udp"), ("ksis", "ksis")]
+    # near misses of the known schemes are unknown schemes: every proper prefix, every one-letter extension, in lower and in mixed case
+    seen = {sp for sp, _ in out}
+    for canon in ("ksi", "ksi+http", "ksi+https", "ksi+tcp", "file"):
+        near = [canon[:k] for k in range(1, len(canon))] + [canon + "x", canon + canon[-1], "x" + canon]
+        for n in near:
+            if n in ("ksi", "ksi+http", "ksi+https", "ksi+tcp", "file", "http", "https"):
+                continue        # known schemes are covered above
+            for sp in (n, n.upper(), n[0].upper() + n[1:]):
+                if sp not in seen:
+                    seen.add(sp); out.append((sp, n))
     return out
 
 
